@@ -170,7 +170,9 @@ def main(argv=None):
                 harness_errors.append('%s: %s' % (ob.name, e))
             except Exception as e:  # noqa
                 harness_errors.append('%s: cannot resolve encoded function %s: %r' % (ob.name, spec, e))
-        rec = {'obligation': ob.name, 'engine': ob.engine or ('CrossHair symbolic execution of the real function, z3 per path' if ob.kind == 'xh' else 'direct SMT encoding regenerated from /repo source'),
+        rec = {'obligation': ob.name, 'engine': ob.engine or {'xh': 'CrossHair symbolic execution of the real function, z3 per path',
+                                                                'sx': 'symx symbolic execution of the real code on z3-backed proxies (lib/symx.py), z3 per branch',
+                                                                'fn': 'direct z3 encoding regenerated from /repo source, or a labelled audit / API composition check'}.get(ob.kind, ob.kind),
                'target': ob.target, 'description': ob.descr, 'bounds': ob.bounds, 'functions': ob.encodes, 'stubs_and_assumptions': ob.stubs,
                'slices': len(ob.slices), 'discharged': 0, 'inconclusive': [], 'counterexamples': [], 'paths': 0, 'queries': 0, 'solver_s': 0.0}
         if ob.twin:
